@@ -38,7 +38,7 @@ var Dict = []string{
 	// rule fragments
 	"{min: 1}", "{enum: @e}", "{enum: [", "{or: [", "{type: \"", "{allOf: \"@t\"}", "{additionalProperties: ", "{regex: \"", "optional: true", "nullable: true", "const: true", ", }", "{ ,",
 	// regex notation
-	"/a/", "\\/", "(", ")", "[^", "{1,", "?", "+?", "\\p{", "(?i)",
+	"/a/", "\\/", "(", ")", "[^", "{1,", "?", "+?", "\\p{", "(?i)", "[^\\x00-\\x{10FFFF}]", "[^\\s\\S]", "\\b", "$a", "a^",
 }
 
 // Truncate returns the prefix of s of length k (clamped).
